@@ -14,9 +14,9 @@ def run(ctx):
     ctx.exhaustive = True
     ctx.notes["rule"] = ("all check sequences of length MaxLen over the 21-step pool of Checker.tla per version; "
                          "plus metamorphic variants of every scenario of the Auth_gen families member_self, "
-                         "member_restricted, member_other, member_tpi, generic, structure")
+                         "member_restricted, member_other, member_tpi, generic, structure, pl0, create")
     r = ctx.tlc("Checker_gen", "Checker_gen_%s.cfg" % ctx.tier, timeout=1500)
     ctx.replay_and_compare("c09", r.records)
-    for fam in ["member_self", "member_restricted", "member_other", "member_tpi", "generic", "structure", "pl0"]:
+    for fam in ["member_self", "member_restricted", "member_other", "member_tpi", "generic", "structure", "pl0", "create"]:
         g = auth.gen_family(ctx, fam)
         ctx.replay_and_compare("c09meta", g.records)
